@@ -5,6 +5,7 @@ CONSTANTS
  MaxTicket = 9
  MaxStale = 1
  MaxExh = 1
+ MaxReins = 0
  AllowRemove = FALSE
  Dev = {}
 INVARIANTS TypeOK NoLostWakeup NoStreamLost ReadyHasSignal FairBoundTight LiveInHeap YieldBound
